@@ -418,6 +418,54 @@ public:
     void wait(::std::unique_lock<mutex>& lock, Pred pred) {
         while (!pred()) wait(lock);
     }
+    // timed waits (not used by tlx today; present so that code which starts using them still builds
+    // against the shims). Serial mode: the time-out may always elapse, so a timed wait is modelled as
+    // "release the mutex, let others run, re-acquire, report a time-out"; it never blocks the thread.
+    template <typename Rep, typename Period>
+    ::std::cv_status wait_for(::std::unique_lock<mutex>& lock, const ::std::chrono::duration<Rep, Period>& d) {
+        dsched::Sched& s = dsched::S();
+        if (s.serial()) {
+            mutex* m = lock.mutex();
+            s.yield_point();
+            m->release_serial();
+            s.yield_point(true);
+            m->acquire_serial();
+            return ::std::cv_status::timeout;
+        }
+        s.jitter();
+        ::std::cv_status r = real_.wait_for(lock, d);
+        s.me()->last_lock_seq = s.lock_seq.fetch_add(1) + 1;
+        return r;
+    }
+    template <typename Rep, typename Period, typename Pred>
+    bool wait_for(::std::unique_lock<mutex>& lock, const ::std::chrono::duration<Rep, Period>& d, Pred pred) {
+        dsched::Sched& s = dsched::S();
+        if (s.serial()) {
+            // a few polls, then give up like an elapsed time-out
+            for (int i = 0; i < 8 && !pred(); ++i) wait_for(lock, d);
+            return pred();
+        }
+        s.jitter();
+        bool r = real_.wait_for(lock, d, pred);
+        s.me()->last_lock_seq = s.lock_seq.fetch_add(1) + 1;
+        return r;
+    }
+    template <typename Clock, typename Duration>
+    ::std::cv_status wait_until(::std::unique_lock<mutex>& lock, const ::std::chrono::time_point<Clock, Duration>& t) {
+        if (dsched::S().serial()) return wait_for(lock, ::std::chrono::milliseconds(1));
+        dsched::S().jitter();
+        ::std::cv_status r = real_.wait_until(lock, t);
+        dsched::S().me()->last_lock_seq = dsched::S().lock_seq.fetch_add(1) + 1;
+        return r;
+    }
+    template <typename Clock, typename Duration, typename Pred>
+    bool wait_until(::std::unique_lock<mutex>& lock, const ::std::chrono::time_point<Clock, Duration>& t, Pred pred) {
+        if (dsched::S().serial()) return wait_for(lock, ::std::chrono::milliseconds(1), pred);
+        dsched::S().jitter();
+        bool r = real_.wait_until(lock, t, pred);
+        dsched::S().me()->last_lock_seq = dsched::S().lock_seq.fetch_add(1) + 1;
+        return r;
+    }
 
 private:
     ::std::condition_variable_any real_;
